@@ -186,19 +186,48 @@ for index, network in enumerate(order):
 		except BaseException as ex:
 			print('aborting-run:', type(ex).__name__)
 		continue
+	if network.endswith('+again'):
+		# the descriptors of the previous run (parsed and post-processed once) handed to the generator a second time: generating must
+		# not change what it was given
+		network = network[:-len('+again')]
+		generator_class.generate(descriptors, os.path.join(scratch, f'{index}-{network}'))
+		continue
 	schemas = os.path.join(repo, 'catbuffer', 'schemas', network)
-	sys.argv = ['catparser', '--schema', os.path.join(schemas, 'all_generated.cats'), '--include', schemas,
-		'--output', os.path.join(scratch, f'{index}-{network}'), '--quiet', '--generator', 'generator.Generator']
-	main()
+	if 0 == index % 2:
+		sys.argv = ['catparser', '--schema', os.path.join(schemas, 'all_generated.cats'), '--include', schemas,
+			'--output', os.path.join(scratch, f'{index}-{network}'), '--quiet', '--generator', 'generator.Generator']
+		main()
+	# the same steps as main(), keeping the descriptors (through the public entry points only: the generator class is what
+	# `--generator generator.Generator` names)
+	import importlib
+	from catparser.__main__ import LarkMultiFileParser
+	from catparser.AstPostProcessor import AstPostProcessor
+	from catparser.AstValidator import AstValidator
+	file_parser = LarkMultiFileParser()
+	file_parser.set_include_path(schemas)
+	raw = file_parser.parse(os.path.join(schemas, 'all_generated.cats'))
+	processor = AstPostProcessor(raw)
+	for mode, steps in ((AstValidator.Mode.PRE_EXPANSION, ('apply_attributes', 'expand_named_inlines', 'expand_unnamed_inlines')), (AstValidator.Mode.POST_EXPANSION, ())):
+		validator = AstValidator(raw)
+		validator.set_validation_mode(mode)
+		validator.validate()
+		assert not validator.errors, validator.errors
+		for step in steps:
+			getattr(processor, step)()
+	descriptors = processor.type_descriptors
+	generator_class = importlib.import_module('generator.Generator').Generator
+	if 0 != index % 2:
+		generator_class.generate(descriptors, os.path.join(scratch, f'{index}-{network}'))
 '''
 
 
 def run_sequences(ctx, scratch, shipped_modules):
 	"""Several generator runs in ONE interpreter (the parser and the generator used as a library, one schema set after the
 	other): what an earlier run left in the process - caches on classes or modules - must not leak into a later one."""
-	orders = [['nem', 'symbol'], ['symbol', 'nem'], ['nem', 'symbol', 'nem'], ['symbol', 'symbol'], ['aborting', 'nem', 'symbol'], ['symbol', 'aborting', 'symbol']]
+	orders = [['nem', 'symbol'], ['symbol', 'nem'], ['nem', 'symbol', 'nem'], ['symbol', 'symbol'], ['aborting', 'nem', 'symbol'], ['symbol', 'aborting', 'symbol'],
+		['nem', 'nem+again', 'symbol', 'symbol+again'], ['aborting', 'symbol', 'symbol+again', 'symbol+again']]
 	if ctx.thorough:
-		orders += [['symbol', 'nem', 'symbol'], ['nem', 'nem', 'symbol', 'symbol']]
+		orders += [['symbol', 'nem', 'symbol'], ['nem', 'nem', 'symbol', 'symbol'], ['symbol', 'symbol+again', 'nem', 'nem+again', 'nem+again']]
 	for number, order in enumerate(orders):
 		target = os.path.join(scratch, f'sequence-{number}')
 		os.makedirs(target)
@@ -219,6 +248,7 @@ def run_sequences(ctx, scratch, shipped_modules):
 			if 'aborting' == network:
 				ctx.count('runs:aborted-generation:' + ('raised' if 'aborting-run: completed' not in proc.stdout else 'completed'))
 				continue
+			network = network.split('+')[0]
 			with open(os.path.join(target, f'{index}-{network}', '__init__.py'), 'rb') as infile:
 				produced = infile.read()
 			if produced != shipped_modules[network]:
